@@ -168,7 +168,8 @@ pub enum I {
     CallFunction { pkg: PackageAddress, blueprint: String, func: String, args: ManifestValue, what: String },
     CallMethod { addr: ComponentAddress, method: String, args: ManifestValue, what: String },
     PublishWat { n: u32 },
-    DropAllProofs,
+    /// drops the regular (non-signature) proofs of the auth zone
+    DropRegularProofs,
 }
 
 #[derive(Clone, Debug)]
@@ -253,7 +254,7 @@ impl I {
             I::CallFunction { what, .. } => format!("call_function[{}]", what),
             I::CallMethod { what, .. } => format!("call_method[{}]", what),
             I::PublishWat { n } => format!("publish_wat(n={})", n),
-            I::DropAllProofs => "drop_all_proofs".into(),
+            I::DropRegularProofs => "drop_auth_zone_regular_proofs".into(),
         }
     }
 }
@@ -322,7 +323,7 @@ impl Plan {
                     let (code, def) = wat_package(*n);
                     b.publish_package_advanced(None, code, def, MetadataInit::default(), OwnerRole::None)
                 }
-                I::DropAllProofs => b.drop_all_proofs(),
+                I::DropRegularProofs => b.drop_auth_zone_regular_proofs(),
             };
         }
         b.build()
@@ -730,7 +731,7 @@ impl<'a> B<'a> {
     }
 
     /// A script run as a function: `kind` 0 nodes, 1 kv store owned by a new global object, 2 events+logs.
-    fn function_script(&mut self, g: &mut Gen, tail: Option<Op>) -> (Script, String) {
+    fn function_script(&mut self, g: &mut Gen, tail: Vec<Op>) -> (Script, String) {
         let mut ops = Vec::new();
         let what;
         match g.weighted(&[3, 3, 2]) {
@@ -782,14 +783,12 @@ impl<'a> B<'a> {
                 self.labels.push("puppet: events and logs");
             }
         }
-        if let Some(t) = tail {
-            ops.push(t);
-        }
+        ops.extend(tail);
         (Script(ops), what)
     }
 
     /// A script run as `act` on a persistent puppet component: writes fields and the three collections.
-    fn act_script(&mut self, g: &mut Gen, tail: Option<Op>) -> (Script, String) {
+    fn act_script(&mut self, g: &mut Gen, tail: Option<usize>) -> (Script, String) {
         let mut ops: Vec<Op> = Vec::new();
         let mut slot = 0u8;
         let kv = g.index(5);
@@ -820,17 +819,34 @@ impl<'a> B<'a> {
             ops.push(Op::FieldWrite(slot, any_u32(g.below(1 << 20) as u32)));
             ops.push(Op::FieldClose(slot));
         }
+        if field {
+            slot += 3;
+        }
         if g.bool() {
             ops.push(Op::ActorEmitEvent { name: "E1".into(), data: puppet_event_data(g.blob(16)), force_write: false });
+            slot += 1;
         }
-        if let Some(t) = tail {
-            ops.push(t);
+        match tail {
+            None => {}
+            Some(0) => ops.push(Op::Panic("boom".into())),
+            Some(1) => {
+                // an event with the FORCE_WRITE flag (only the fungible vault blueprint may emit one), then a panic
+                ops.push(Op::ActorEmitEvent { name: "E0".into(), data: puppet_event_data(vec![2]), force_write: true });
+                ops.push(Op::Panic("boom".into()));
+            }
+            Some(_) => {
+                // a field opened with FORCE_WRITE (only the fungible vault blueprint may), written, then a panic
+                ops.push(Op::ActorOpenField { state: 0, field: 2, flags: 7 });
+                ops.push(Op::FieldWrite(slot, any_u32(0xdead)));
+                ops.push(Op::FieldClose(slot));
+                ops.push(Op::Panic("boom".into()));
+            }
         }
         (Script(ops), format!("puppet act: {} kv, {} index, {} sorted, field write {}", kv, idx, sorted, field))
     }
 
     fn puppet_function(&mut self, g: &mut Gen) -> bool {
-        let (s, what) = self.function_script(g, None);
+        let (s, what) = self.function_script(g, vec![]);
         self.push_puppet_run(g, s, what, true);
         true
     }
@@ -883,7 +899,7 @@ impl<'a> B<'a> {
 
     fn failing_action(&mut self, g: &mut Gen) -> &'static str {
         for _ in 0..8 {
-            let kind = g.weighted(&[6, 4, 4, 4, 3, 5, 5, 2, 3, 3, 3, 3, 3, 3]);
+            let kind = g.weighted(&[6, 4, 4, 4, 3, 5, 5, 2, 3, 3, 3, 3, 3, 3, 3]);
             match kind {
                 0 => {
                     // withdraw more than the balance
@@ -944,23 +960,19 @@ impl<'a> B<'a> {
                 5 => {
                     // puppet function script that wrote state and then fails
                     let tail = match g.index(4) {
-                        0 => Op::Panic("boom".into()),
-                        1 => Op::ActorEmitEvent { name: "E0".into(), data: puppet_event_data(vec![1]), force_write: true },
-                        2 => Op::KvStoreNew { allow_ownership: false },
-                        _ => Op::CallFunction { package: self.w.puppet_p, blueprint: PUPPET_BLUEPRINT.into(), function: "no_such_function".into(), args: scrypto_encode(&()).unwrap() },
+                        0 => vec![Op::Panic("boom".into())],
+                        1 => vec![Op::ActorEmitEvent { name: "E0".into(), data: puppet_event_data(vec![1]), force_write: true }, Op::Panic("boom".into())],
+                        2 => vec![Op::KvStoreNew { allow_ownership: false }],
+                        _ => vec![Op::CallFunction { package: self.w.puppet_p, blueprint: PUPPET_BLUEPRINT.into(), function: "no_such_function".into(), args: scrypto_encode(&()).unwrap() }],
                     };
-                    let (s, what) = self.function_script(g, Some(tail));
+                    let (s, what) = self.function_script(g, tail);
                     self.push_puppet_run(g, s, format!("{} then a failing op", what), false);
                     return "puppet script fails after writing";
                 }
                 6 => {
                     // puppet method on the persistent component: writes then a forbidden / failing op
-                    let tail = match g.index(3) {
-                        0 => Op::Panic("boom".into()),
-                        1 => Op::ActorEmitEvent { name: "E0".into(), data: puppet_event_data(vec![2]), force_write: true },
-                        _ => Op::ActorOpenField { state: 0, field: 0, flags: 7 },
-                    };
-                    let (s, what) = self.act_script(g, Some(tail));
+                    let t = g.index(3);
+                    let (s, what) = self.act_script(g, Some(t));
                     let use_royal = self.ext.royal.is_some() && g.chance(1, 3);
                     let addr = if use_royal { self.ext.royal.unwrap() } else { self.ext.comp };
                     self.push_puppet_act(addr, s, format!("{} then a failing op{}", what, if use_royal { " (royalty component)" } else { "" }), false);
@@ -1047,6 +1059,15 @@ impl<'a> B<'a> {
                     });
                     return "call a missing function";
                 }
+                14 => {
+                    // a vault that already locked fee (so is updated in this transaction) locks fee again
+                    if self.payers.is_empty() {
+                        continue;
+                    }
+                    let a = *g.pick(&self.payers);
+                    self.push_fail(I::LockFee { acct: a, amount: dec_of(ONE), contingent: g.bool() });
+                    return "second fee lock on an updated vault";
+                }
                 _ => {
                     // take more from the worktop than it holds
                     let r = g.index(self.w.fungibles.len());
@@ -1115,11 +1136,13 @@ pub fn gen_plan(g: &mut Gen, w: &World, m: &Model, o: &Opts) -> Plan {
                 }
             }
             _ => {
+                // 2-3 locks from distinct account vaults (a vault already updated in the transaction cannot lock fee again)
                 let n = 2 + g.index(2);
+                let first = g.index(b.n_acc());
                 let mut locks = Vec::new();
                 let mut covered = false;
                 for k in 0..n {
-                    let a = g.index(b.n_acc());
+                    let a = (first + k) % b.n_acc();
                     if b.m.xrd_lb[a] < 1000 * ONE {
                         continue;
                     }
@@ -1146,7 +1169,7 @@ pub fn gen_plan(g: &mut Gen, w: &World, m: &Model, o: &Opts) -> Plan {
     if fail_before_lock {
         b.push_fail(I::AssertContains { res: XRD, amount: dec_of(ONE) });
     } else if g.chance(1, 10) {
-        b.push(I::DropAllProofs);
+        b.push(I::DropRegularProofs);
     }
     match &fee {
         FeePlan::Faucet => b.push(I::LockFeeFaucet),
